@@ -597,10 +597,29 @@ def _mkvar(name, control):
             return _mkvar(p, control)
         return float(frac(p)) if CTX.mode == "concrete" else SymReal(c=frac(p))
     if CTX.mode == "concrete":
+        g = CTX.opts.get("generic_seed")
+        if g is not None:
+            # generic replay: tensor contents take generic values (the candidate's own values were degenerate or there was no model);
+            # hyperparameters keep the candidate's values, or a default inside the documented domain
+            if not control:
+                return _generic_value(name, g)
+            if name not in CTX.values:
+                return float(_HP_GENERIC.get(name.split("_")[0], 0.5))
         return float(CTX.values.get(name, 0.0))
     (CTX.control if control else CTX.datavars).add(name)
     CTX.realnames.add(name)
     return SymReal(z3.Real(name), None, _name_fp(name), vname=name)
+
+
+_HP_GENERIC = dict(lr=0.25, b1=0.5, b2=0.75, b3=0.625, eps=0.125, wd=0.125, mom=0.5, damp=0.25, geps=0.25, gb2=0.875, tol=0.001)
+
+
+def _generic_value(name, seed):
+    import hashlib
+
+    h = int(hashlib.sha256(f"{name}|{seed}".encode()).hexdigest()[:12], 16)
+    v = ((h % 4001) - 2000) / 1000.0  # [-2, 2], three decimals
+    return v if abs(v) >= 0.05 else (0.37 if h % 2 else -0.41)
 
 
 def hp(name):
@@ -1039,8 +1058,9 @@ def _check(constraints, timeout_ms, aux=False):
         s.add(c)
     t = time.time()
     r = s.check()
-    if str(r) == "unknown" and not aux and os.environ.get("VERIF_CVC5_FALLBACK", "1") != "0":
-        # second back end before giving up: only a refutation (unsat) is taken from it, a sat answer stays inconclusive (no model transfer)
+    if str(r) == "unknown" and not aux and CTX.opts.get("cvc5_fallback") and os.environ.get("VERIF_CVC5_FALLBACK", "1") != "0":
+        # second back end before giving up (opt-in per check: linear integer queries only -- cvc5 does not honour its time limit inside non-linear
+        # real preprocessing): only a refutation (unsat) is taken from it, a sat answer stays inconclusive (no model transfer)
         if _cvc5_verdict(s, int(timeout_ms)) == "unsat":
             r = "unsat"
             CTX.stats["decided_by_cvc5"] = CTX.stats.get("decided_by_cvc5", 0) + 1
@@ -1355,7 +1375,7 @@ def prove_equal(label, a, b, info=None):
     if r == "sat":
         raise PathViolation(_viol(label, s, info, a=a, b=b))
     if not same_fp:
-        w = _search_witness(ds, nz, tries=40)
+        w = _search_witness(ds, nz, tries=12)
         if w is not None:
             raise PathViolation(_viol(label, w, info, a=a, b=b))
     raise PathViolation(_viol(label, None, info, unknown=True))
